@@ -377,29 +377,31 @@ func rulesC09(p *Prog, r *Report) {
 	}
 	for _, fn := range p.RList {
 		fbn := bp.forFn(fn)
-		for _, b := range fn.Blocks {
-			for _, in := range b.Instrs {
-				al, ok := in.(*ssa.Alloc)
-				if !ok || !types.Identical(al.Type().Underlying().(*types.Pointer).Elem(), tokT.Type()) {
-					continue
-				}
-				var role, value ssa.Value
-				for _, ref := range *al.Referrers() {
-					if fa, ok := ref.(*ssa.FieldAddr); ok {
-						for _, rr := range *fa.Referrers() {
-							if st, ok := rr.(*ssa.Store); ok && st.Addr == fa {
-								switch fieldOf(fa).Field {
-								case "role":
-									role = st.Val
-								case "value":
-									value = st.Val
-								}
+		if tokenCtor(p, fn) != nil {
+			continue // a constructor helper: its call sites are the literals
+		}
+		{
+			for _, tl := range tokenLitsIn(p, fn) {
+				al := tl.At
+				role, value := tl.Role, tl.Value
+				var rc *ssa.Const
+				switch rv := role.(type) {
+				case *ssa.Const:
+					rc = rv
+				case *ssa.Parameter:
+					// a builder that is handed the role: any id role among the constants its call sites pass
+					if cs, ok := paramConsts(p, rv); ok {
+						for _, c := range cs {
+							if c.Value != nil && idRoles[c.Value.ExactString()] {
+								rc = c
 							}
 						}
+					} else {
+						r.Unknown("K2", fmt.Sprintf("%s|token literal", p.shortKey(fn)), p.pos(al.Pos()), "kind=undecided: the role of a token literal is not resolvable to constants")
+						continue
 					}
 				}
-				rc, ok := role.(*ssa.Const)
-				if !ok || rc.Value == nil || !idRoles[rc.Value.ExactString()] {
+				if rc == nil || rc.Value == nil || !idRoles[rc.Value.ExactString()] {
 					continue
 				}
 				key := fmt.Sprintf("%s|token literal role %s", p.shortKey(fn), rc.Value.ExactString())
@@ -408,7 +410,24 @@ func rulesC09(p *Prog, r *Report) {
 				if ok && ex.Index == 1 {
 					call, _ = ex.Tuple.(*ssa.Call)
 				}
-				if call == nil || call.Call.StaticCallee() == nil || li.Wrappers[call.Call.StaticCallee()] == "" && call.Call.StaticCallee() != li.Lookup {
+				isLookupFn := func(f *ssa.Function) bool { return f != nil && (li.Wrappers[f] != "" || f == li.Lookup) }
+				okCall := false
+				if call != nil {
+					if sc := call.Call.StaticCallee(); sc != nil {
+						okCall = isLookupFn(sc)
+					} else if prm, isPrm := call.Call.Value.(*ssa.Parameter); isPrm {
+						// the lookup is handed in: every call site passes one of the list lookups
+						if fs, ok := paramFuncs(p, prm); ok {
+							okCall = true
+							for _, f := range fs {
+								if !isLookupFn(f) {
+									okCall = false
+								}
+							}
+						}
+					}
+				}
+				if !okCall {
 					r.Bad("K2", key, p.pos(al.Pos()), fmt.Sprintf("the token's value is %s, not the string result of the list lookup: the caller's spelling (letter case) reaches the token", describe(value)))
 					continue
 				}
@@ -448,7 +467,7 @@ func rulesC09(p *Prog, r *Report) {
 					r.OK("K2", key, p.pos(st.Pos()), "empty initialiser", "", false)
 					continue
 				}
-				if tokenValueOrigin(st.Val, tokT.Type(), map[ssa.Value]bool{}) {
+				if tokenValueOrigin(p, st.Val, tokT.Type(), map[ssa.Value]bool{}) {
 					r.OK("K2", key, p.pos(st.Pos()), "from token.value", "", true)
 				} else {
 					r.Bad("K2", key, p.pos(st.Pos()), fmt.Sprintf("node field %s is set from %s, not from a token's value", fld, describe(st.Val)))
@@ -636,9 +655,76 @@ func shortDesc(s string) string {
 	return s
 }
 
+// callSiteArgs: the values passed for prm at all static call sites of its function within the module.
+func callSiteArgs(p *Prog, prm *ssa.Parameter) ([]ssa.Value, bool) {
+	f := prm.Parent()
+	idx := -1
+	for i, fp := range f.Params {
+		if fp == prm {
+			idx = i
+		}
+	}
+	if idx < 0 || f.Parent() != nil {
+		return nil, false
+	}
+	var out []ssa.Value
+	for _, g := range p.RList {
+		for _, b := range g.Blocks {
+			for _, in := range b.Instrs {
+				ci, ok := in.(ssa.CallInstruction)
+				if !ok {
+					continue
+				}
+				if ci.Common().StaticCallee() == f && idx < len(ci.Common().Args) {
+					out = append(out, ci.Common().Args[idx])
+					continue
+				}
+				// the function escaping as a value makes its call sites unknown
+				for _, a := range ci.Common().Args {
+					if a == ssa.Value(f) {
+						return nil, false
+					}
+				}
+			}
+		}
+	}
+	return out, len(out) > 0
+}
+
+// paramFuncs: the functions passed for a function-typed parameter at all (static) call sites of its function.
+func paramFuncs(p *Prog, prm *ssa.Parameter) ([]*ssa.Function, bool) {
+	f := prm.Parent()
+	idx := -1
+	for i, fp := range f.Params {
+		if fp == prm {
+			idx = i
+		}
+	}
+	if idx < 0 {
+		return nil, false
+	}
+	var out []*ssa.Function
+	for _, g := range p.RList {
+		for _, b := range g.Blocks {
+			for _, in := range b.Instrs {
+				ci, ok := in.(ssa.CallInstruction)
+				if !ok || ci.Common().StaticCallee() != f || idx >= len(ci.Common().Args) {
+					continue
+				}
+				fn, ok := ci.Common().Args[idx].(*ssa.Function)
+				if !ok {
+					return nil, false
+				}
+				out = append(out, fn)
+			}
+		}
+	}
+	return out, len(out) > 0
+}
+
 // tokenValueOrigin: v is loaded from the value field of a token (possibly via a pointer result of a
 // function that returns &token.value, or a phi of such).
-func tokenValueOrigin(v ssa.Value, tok types.Type, seen map[ssa.Value]bool) bool {
+func tokenValueOrigin(p *Prog, v ssa.Value, tok types.Type, seen map[ssa.Value]bool) bool {
 	if seen[v] {
 		return true
 	}
@@ -674,9 +760,29 @@ func tokenValueOrigin(v ssa.Value, tok types.Type, seen map[ssa.Value]bool) bool
 			}
 			return okAll
 		}
+	case *ssa.Parameter:
+		// a constructor's parameter: what every call site passes (the empty constant is the unset field)
+		args, ok := callSiteArgs(p, t)
+		if !ok {
+			return false
+		}
+		n := 0
+		for _, a := range args {
+			if s, isC := constString(a); isC && s == "" {
+				continue
+			}
+			n++
+			if !tokenValueOrigin(p, a, tok, seen) {
+				return false
+			}
+		}
+		return n > 0
 	case *ssa.Phi:
 		for _, e := range t.Edges {
-			if !tokenValueOrigin(e, tok, seen) {
+			if s, isC := constString(e); isC && s == "" {
+				continue
+			}
+			if !tokenValueOrigin(p, e, tok, seen) {
 				return false
 			}
 		}
@@ -706,7 +812,7 @@ func tokenValueOrigin(v ssa.Value, tok types.Type, seen map[ssa.Value]bool) bool
 				continue
 			}
 			n++
-			if !tokenValueOrigin(ret.Results[idx], tok, seen) {
+			if !tokenValueOrigin(p, ret.Results[idx], tok, seen) {
 				return false
 			}
 		}
